@@ -156,12 +156,6 @@ impl Session {
                 }
             }
 
-            // If ignore_mac is false, we're dealing with Class A downlink and
-            // therefore can clear uplinks which need to be retained for acknowledgment
-            if !ignore_mac {
-                self.uplink.clear_mac_commands(false);
-            }
-
             #[cfg(feature = "certification")]
             if let Some(port) = encrypted_data.f_port()
                 && port > 0
@@ -184,6 +178,11 @@ impl Session {
                 self.fcnt_down = Some(fcnt);
                 // Any accepted downlink confirms connectivity for ADR.
                 self.adr_ack_cnt = 0;
+                // If ignore_mac is false, we're dealing with an authentic Class A downlink and
+                // therefore can clear uplinks which need to be retained for acknowledgment
+                if !ignore_mac {
+                    self.uplink.clear_mac_commands(false);
+                }
                 // We can safely unwrap here because we already validated the MIC
                 let decrypted = DecryptedDataPayload::decrypt_in_place(
                     bytes,
